@@ -8,7 +8,8 @@ From Coq Require Import Permutation.
 From Agdb Require Import Bytes BytesProofs Utf8 Codec DbValue ValueIndex Graph DbModel Records RecordsProofs Storage StorageSpec
   StorageLayout StorageWp StorageRefine StorageProofs Collections CollValues CollWp CollBytes CollVecBase CollVecOps CollVec
   CollVec2 CollElems CollSep CollMap CollMapHist CollGraph CollValuesProofs StoredDb StoredDbRep StoredDbRun StoredDbLoad StoredDbProofs
-  StoredDbFrame StoredDbExampleBase StoredDbOps StoredDbOpsGraph StoredDbOpsDb StoredDbOpsKv StoredDbOpsKv2 StoredDbOpsDb2.
+  StoredDbFrame StoredDbExampleBase StoredDbOps StoredDbOpsGraph StoredDbOpsDb StoredDbOpsKv StoredDbOpsKv2 StoredDbOpsDb2
+  StoredDbOpsGraph2 StoredDbOpsGraph3 StoredDbOpsGraph4.
 From Coq Require Import ZifyBool ZifyNat ZifyN.
 Open Scope N_scope.
 
@@ -143,4 +144,25 @@ Proof.
   split; [exact sy_live|].
   split; [|exact sy_loads].
   unfold hp in HS. rewrite EA in HS. exact HS.
+Qed.
+
+(* ---------------- remove_edge: the hypotheses hold of the example's edge -3 ---------------- *)
+Lemma sy_unlink_ok_from : unlink_ok (gr sx_db) (length (g_from (gr sx_db))) GfFrom GfFromMeta (-3)%Z.
+Proof.
+  unfold unlink_ok. split; [vm_compute; lia|]. split; [vm_compute; lia|]. split.
+  - intros X. vm_compute in X. discriminate X.
+  - intros G' E. vm_compute in E. injection E as <-. unfold i64_range. vm_compute. split; [discriminate|reflexivity].
+Qed.
+
+Lemma sy_remove_edge_sample :
+  so_graph_ok (gr sx_db) /\ so_remove_edge_ok (gr sx_db) (-3)%Z /\ is_edge (gr sx_db) (-3)%Z = true /\
+  exists G', Graph.remove_edge (gr sx_db) (-3)%Z = Some G' /\ g_from G' = [0; 0; 0; 0]%Z /\ g_fmeta G' = [-3; 0; 0; -9223372036854775808]%Z.
+Proof.
+  split; [exact sy_graph_ok|]. split; [|split; [vm_compute; reflexivity|]].
+  - intros _. split; [exact sy_unlink_ok_from|].
+    intros G1 E1. vm_compute in E1. injection E1 as <-.
+    unfold unlink_ok. split; [vm_compute; lia|]. split; [vm_compute; lia|]. split.
+    + intros X. vm_compute in X. discriminate X.
+    + intros G' E. vm_compute in E. injection E as <-. unfold i64_range. vm_compute. split; [discriminate|reflexivity].
+  - eexists. split; [vm_compute; reflexivity|]. split; reflexivity.
 Qed.
